@@ -48,7 +48,7 @@ fn lib_engine(rep: &Report, seed: u64, tier: Tier) {
             });
         }
         // random, larger
-        let per = tier.pick(1500, 30_000);
+        let per = tier.pick(8000, 150_000);
         for j in 0..per {
             let mut rng = Rng::new(seed).fork(0x1300_0000 + (sh * per + j) as u64);
             let l = layout::random_layout(&mut rng, 12, 6, 8);
@@ -228,7 +228,7 @@ pub fn run(tier: Tier, seed: u64) -> i32 {
         }
     }
     lib_engine(&rep, seed, tier);
-    let n = tier.pick(300, 3500);
+    let n = tier.pick(1000, 10_000);
     let viols = par_map(n, crate::util::ncpu(), |i| {
         let mut rng = Rng::new(seed).fork(0x1300 + i as u64);
         let sc = cc::gen_scenario(&mut rng, if i % 3 == 0 { Focus::Seeds } else { Focus::InPlace }, (1, 4), true);
